@@ -21,9 +21,13 @@ structure Laws {A : Type} (R : Arith A) (M : ErrModel) : Prop where
     ∃ c z, R.mul a b = .ok c ∧ R.val c = some z ∧ ratAbs (z - x * y) ≤ M.E (x * y)
   div_ok : ∀ a b x y, R.val a = some x → R.val b = some y → y ≠ 0 → M.safe (x / y) = true →
     ∃ c z, R.div a b = .ok c ∧ R.val c = some z ∧ ratAbs (z - x / y) ≤ M.E (x / y)
-  add_ok : ∀ a b x y, R.val a = some x → R.val b = some y → M.safe (x + y) = true →
+  /-- operands must be in range too: aligning a decimal operand to the other's digit count
+      can overflow although the sum is small (`Dec.add_ok_false`) -/
+  add_ok : ∀ a b x y, R.val a = some x → R.val b = some y → M.safe x = true → M.safe y = true →
+    M.safe (x + y) = true →
     ∃ c z, R.add a b = .ok c ∧ R.val c = some z ∧ ratAbs (z - (x + y)) ≤ M.Ea (x + y)
-  sub_ok : ∀ a b x y, R.val a = some x → R.val b = some y → M.safe (x - y) = true →
+  sub_ok : ∀ a b x y, R.val a = some x → R.val b = some y → M.safe x = true → M.safe y = true →
+    M.safe (x - y) = true →
     ∃ c z, R.sub a b = .ok c ∧ R.val c = some z ∧ ratAbs (z - (x - y)) ≤ M.Ea (x - y)
   beq_val : ∀ a b x y, R.val a = some x → R.val b = some y → R.beq a b = decide (x = y)
   pcmp_val : ∀ a b x y, R.val a = some x → R.val b = some y → R.pcmp a b = some (ratCmp x y)
